@@ -667,6 +667,10 @@ def check(run):
             m_part(run, scr, nat)
         except mir.Unsupported as e:
             run.inconclusive.append("encoder: %s" % e)
+    if only in ("", "A"):
+        # the scaling kind decided by the analysis pass survives into the stored component, references included
+        import analysis
+        analysis.run_for(run, scr, nat, "C08")
     if only in ("", "K"):
         kani_group.run_group(run, scr, registry.select("C08", run.tier))
     # validation: the solver's verdict and the real code must agree on a concrete parsed recipe (public API)
@@ -696,6 +700,9 @@ def replay(run, path):
         return 0 if st == "passed" else 2
     nat = native.Native(scr)
     nat.build()
+    if obj.get("replay") == "structure":
+        import analysis
+        return analysis.replay_structure(nat, "C08", path)
     r = nat.call("scale_scenario", *obj["args"])
     print("replay:", r)
     if r.get("problems") or "error" in r:
